@@ -98,3 +98,48 @@ impl Amm {
         (fallback, false)
     }
 }
+
+// ------------------------------------------------------------------------------------------------
+// input tuples for the two rare end states of the boxed ladder (shared with C15)
+
+/// (modulus limbs, base < m, 12-bit exponent, found): m in [0.42 R, 0.495 R), exponent searched so
+/// that the almost-Montgomery accumulator leaves the loop at or above 2m.
+pub fn double_reduction_tuple(t: &mut Tape, n: usize) -> (Limbs, BigUint, u64, bool) {
+    let mut ml = t.expand(n);
+    ml[n - 1] = t.range(0x6B85_1EB8_51EB_851F, 0x7EB8_51EB_851E_B851);
+    ml[0] |= 1;
+    let m = big(&ml);
+    let base = big(&t.expand(n + 1)) % &m;
+    let x_mont = (&base << (64 * n)) % &m;
+    let amm = Amm::new(&m, n);
+    let (off1, off2) = (t.below(15), t.below(16));
+    let (e, found) = amm.search_double_reduction(&x_mont, off1, off2);
+    (ml, base, e, found)
+}
+
+/// (modulus limbs, base, exponent): m = p^k c with one leading zero bit, base = p c beta, exponent
+/// 0x10 | i2 with 16 + i2 >= k > 16, so that base^e = 0 (mod m) through the last window only.
+pub fn late_zero_tuple(t: &mut Tape, n: usize) -> Option<(Limbs, BigUint, u64)> {
+    let p = BigUint::from(t.pick(&[3u32, 5, 7]));
+    let k = t.range(17, 22) as u32;
+    let pk = num_traits::pow(p.clone(), k as usize);
+    let r = pow2(64 * n as u64);
+    let lo = (&r * 42u32) / 100u32;
+    let span = (&r * 7u32) / 100u32;
+    let target = lo + big(&t.expand(n)) % span;
+    let mut cfac = &target / &pk;
+    if !cfac.bit(0) {
+        cfac += 1u32;
+    }
+    while (&cfac % &p) == BigUint::from(0u32) {
+        cfac += 2u32;
+    }
+    let m = &pk * &cfac;
+    if m.bits() != 64 * n as u64 - 1 {
+        return None;
+    }
+    let beta = big(&t.expand(n)) | BigUint::one();
+    let base = (&p * &cfac * beta) % &m;
+    let i2 = t.range((k - 16) as u64, 15);
+    Some((limbs_exact(&m, n), base, 0x10 | i2))
+}
